@@ -12,7 +12,7 @@ VERIF = os.path.dirname(HERE)
 RFW = "/tmp/rfw"
 sys.path.insert(0, HERE)
 from bases import OLD_BASES
-PROPS = ["C%02d" % i for i in range(1, 18)]
+PROPS = os.environ.get("RF_PROPS", "").split() or ["C%02d" % i for i in range(1, 18)]      # RF_PROPS="C13 C17": only these
 
 
 def sh(cmd, cwd=None, env=None):
